@@ -173,6 +173,7 @@ Ltac destr_step H :=
   | context [match todo ?s ?i with _ => _ end] => destruct (todo s i) eqn:?
   | context [if busy ?j ?s then _ else _] => destruct (busy j s) eqn:?
   | context [match buf ?s with _ => _ end] => destruct (buf s) eqn:?
+  | context [if fused ?s then _ else _] => destruct (fused s) eqn:?
   | context [match iter_of ?j ?l with _ => _ end] => destruct (iter_of j l) as [[[] ?]|] eqn:?
   | context [if closed ?s then _ else _] => destruct (closed s) eqn:?
   | context [if room ?s then _ else _] => destruct (room s) eqn:?
@@ -189,7 +190,7 @@ Ltac destr_step H :=
 Definition Inv (prog : nat -> list N) (s : st) : Prop :=
   forall i, from i (map snd (deq s) ++ buf s) ++ tag i (todo s i) = tag i (prog i).
 
-Lemma inv_init c prog : Inv prog (init c prog).
+Lemma inv_init f c prog : Inv prog (init f c prog).
 Proof. intros i. reflexivity. Qed.
 
 Lemma inv_step prog s a s' e : Inv prog s -> step s a = Some (s', e) -> Inv prog s'.
@@ -206,12 +207,15 @@ Proof.
   - (* Recv *)
     intros k. cbn. specialize (I k). match goal with E : buf s = _ |- _ => rewrite E in I end.
     rewrite map_app. cbn [map snd]. rewrite <- app_assoc. exact I.
+  - (* Next, fused *)
+    intros k. cbn. specialize (I k). match goal with E : buf s = _ |- _ => rewrite E in I end.
+    rewrite map_app. cbn [map snd]. rewrite <- app_assoc. exact I.
   - (* Next *)
     intros k. cbn. specialize (I k). match goal with E : buf s = _ |- _ => rewrite E in I end.
     rewrite map_app. cbn [map snd]. rewrite <- app_assoc. exact I.
 Qed.
 
-Theorem fifo_all_schedules prog c sch s : run (init c prog) sch = Some s -> Inv prog s.
+Theorem fifo_all_schedules prog f c sch s : run (init f c prog) sch = Some s -> Inv prog s.
 Proof. apply (run_invariant (Inv prog)); [apply inv_step|apply inv_init]. Qed.
 
 (* ------------------------------------------------------------------ 2. what holds of the iteration protocol under EVERY schedule *)
@@ -225,7 +229,7 @@ Definition Weak (s : st) : Prop :=
   (forall p, In p (delivered (seen s)) -> In (snd p) (map snd (deq s))) /\
   (forall j ph m, In (j, (ph, m)) (iters s) -> In m (map snd (deq s))).
 
-Lemma weak_init c prog : Weak (init c prog).
+Lemma weak_init f c prog : Weak (init f c prog).
 Proof. unfold Weak; cbn. split; [reflexivity|]. split; [constructor|]. split; [discriminate|]. split; intros; contradiction. Qed.
 
 (* steps that only add an event which hands no value to a script *)
@@ -261,6 +265,12 @@ Proof.
     + intros m' Hm. apply in_or_app. left. apply La. exact Hm.
     + intros q Hq. apply in_app_or in Hq. apply in_or_app. destruct Hq as [Hq|[<-|[]]]; [left; apply D; exact Hq|right; left; reflexivity].
     + intros j0 ph0 m0 Hin. apply in_or_app. left. eapply I. exact Hin.
+  - (* Next, fused *)
+    destruct W as (L & N & La & D & I). unfold Weak; cbn. rewrite delivered_app, map_app. cbn. rewrite !app_length. cbn.
+    split; [lia|]. split; [exact N|]. split; [|split].
+    + intros m' Hm. apply in_or_app. left. apply La. exact Hm.
+    + intros q Hq. apply in_app_or in Hq. apply in_or_app. destruct Hq as [Hq|[<-|[]]]; [left; apply D; exact Hq|right; left; reflexivity].
+    + intros j0 ph0 m0 Hin. apply in_or_app. left. eapply I. exact Hin.
   - (* Next value *)
     destruct W as (L & N & La & D & I). unfold Weak; cbn. rewrite delivered_app, map_app. cbn. rewrite !app_length, app_nil_r. cbn.
     split; [lia|]. split; [|split; [|split]].
@@ -289,7 +299,7 @@ Proof.
     + intros j0 ph0 m0 Hin. apply drop_iter_in in Hin. eapply I. apply Hin.
 Qed.
 
-Theorem weak_all_schedules prog c sch s : run (init c prog) sch = Some s -> Weak s.
+Theorem weak_all_schedules prog f c sch s : run (init f c prog) sch = Some s -> Weak s.
 Proof. apply (run_invariant Weak); [apply weak_step|apply weak_init]. Qed.
 
 (* ------------------------------------------------------------------ 3. exactly-once delivery when iterations do not overlap *)
@@ -309,7 +319,7 @@ Definition Excl (s : st) : Prop :=
   rxcount s = length (entry_keys (seen s)) + counted (iters s) /\
   entry_keys (seen s) = seq 0 (length (entry_keys (seen s))).
 
-Lemma excl_init c prog : Excl (init c prog).
+Lemma excl_init f c prog : Excl (init f c prog).
 Proof. unfold Excl; cbn. repeat split; auto. intros j ph m H. discriminate. Qed.
 
 Lemma excl_ext s s' e :
@@ -349,6 +359,16 @@ Proof.
     + match goal with Bz : busy k s = false |- _ => apply busy_false in Bz; rewrite Bz in * end.
       rewrite app_nil_r in *. rewrite A. reflexivity.
     + rewrite (by_key_one_other k j) by exact Ne. rewrite !app_nil_r. exact A.
+  - (* Next, fused: value and entry in one step *)
+    destruct X as (A & B & Cc & D & K). cbn in G. destruct (iters s) as [|q qs] eqn:P; [|discriminate].
+    unfold counted in D. cbn in D.
+    unfold Excl, held. cbn [deq seen last iters rxcount]. rewrite delivered_app, entry_keys_app. cbn [delivered entry_keys].
+    rewrite app_length. cbn [length].
+    split; [|split; [cbn; lia|split; [|split; [unfold counted; cbn; lia|]]]].
+    + intros k. rewrite !by_key_app. specialize (A k). unfold held in A. rewrite P, iter_of_nil, app_nil_r in A.
+      rewrite iter_of_nil, app_nil_r, A. reflexivity.
+    + intros k ph m Hk _. rewrite iter_of_nil in Hk. discriminate.
+    + rewrite seq_app. cbn. rewrite <- K. f_equal. f_equal. lia.
   - (* Next value *)
     destruct X as (A & B & Cc & D & K). cbn in G. destruct (iters s) as [|q qs] eqn:P; [|discriminate].
     unfold Excl, held. cbn. rewrite delivered_app, entry_keys_app. cbn. rewrite !app_nil_r.
@@ -412,8 +432,8 @@ Proof.
     apply (IH s1); [|exact Gr|exact R]. eapply excl_step; [exact X| |exact E]. destruct a; exact Ga || reflexivity.
 Qed.
 
-Theorem exclusive_exactly_once prog c sch s :
-  run (init c prog) sch = Some s -> exclusive (init c prog) sch = true -> Excl s.
+Theorem exclusive_exactly_once prog f c sch s :
+  run (init f c prog) sch = Some s -> exclusive (init f c prog) sch = true -> Excl s.
 Proof. intros R G. eapply excl_run; [apply excl_init|exact G|exact R]. Qed.
 
 (* at most one receiver iterates => iterations never overlap *)
@@ -438,8 +458,31 @@ Proof.
     + apply in_map_iff in Hj. destruct Hj as (q & <- & Hp). apply drop_iter_in in Hp. apply P. apply in_map. apply Hp.
 Qed.
 
-Lemma single_exclusive_init j0 c prog sch : single_iter j0 sch = true -> exclusive (init c prog) sch = true.
+Lemma single_exclusive_init j0 f c prog sch : single_iter j0 sch = true -> exclusive (init f c prog) sch = true.
 Proof. apply single_exclusive. intros j []. Qed.
+
+(* the repaired ForIter (value and entry in one step) never leaves a receiver inside ForIter:
+   every schedule satisfies the guard *)
+Lemma fused_step s a s' e : fused s = true -> iters s = [] -> step s a = Some (s', e) -> fused s' = true /\ iters s' = [].
+Proof.
+  intros F P H. destruct a as [i|j|j|j|j|j|k| |i|j|j]; cbn in H; rewrite ?F, ?P in H; destr_step H; cbn; split; (assumption || reflexivity).
+Qed.
+
+Lemma fused_exclusive sch : forall s, fused s = true -> iters s = [] -> exclusive s sch = true.
+Proof.
+  induction sch as [|a r IH]; intros s F P; cbn; [reflexivity|].
+  destruct (step s a) as [(s1, e)|] eqn:E; [|reflexivity].
+  destruct (fused_step _ _ _ _ F P E) as (F1 & P1). rewrite (IH _ F1 P1), andb_true_r.
+  destruct a; try reflexivity. rewrite P. reflexivity.
+Qed.
+
+Lemma fused_run sch : forall s s', fused s = true -> iters s = [] -> run s sch = Some s' -> iters s' = [].
+Proof.
+  induction sch as [|a r IH]; intros s s' F P R; cbn in R.
+  - injection R as <-. exact P.
+  - destruct (step s a) as [(s1, e)|] eqn:E; [|discriminate].
+    destruct (fused_step _ _ _ _ F P E) as (F1 & P1). apply (IH s1); assumption.
+Qed.
 
 (* ------------------------------------------------------------------ 4. closed and drained: nil, end of iteration, for ever *)
 
@@ -463,7 +506,7 @@ Proof. intros C B M. cbn. rewrite M, B, C. reflexivity. Qed.
 Lemma iter_end_only_when s j s' :
   step s (Next j) = Some (s', EvIterEnd j) -> closed s = true /\ buf s = [] /\ s' = note s (EvIterEnd j).
 Proof.
-  cbn. destruct (busy j s); [discriminate|]. destruct (buf s); [|discriminate].
+  cbn. destruct (busy j s); [discriminate|]. destruct (buf s); [|destruct (fused s); discriminate].
   destruct (closed s); [|discriminate]. intros [= <-]. repeat split.
 Qed.
 
@@ -474,6 +517,7 @@ Lemma open_or_nonempty_no_nil s j s' e :
 Proof.
   intros O [H|H]; cbn in H; destruct (busy j s); try discriminate;
     destruct (buf s) as [|m r]; try (injection H as <- <-; split; discriminate);
+    try (destruct (fused s); injection H as <- <-; split; discriminate);
     destruct (closed s); try discriminate; destruct O as [O|O]; congruence.
 Qed.
 
@@ -501,15 +545,15 @@ Qed.
 
 (* ------------------------------------------------------------------ 5. the statements at quiescence *)
 
-Theorem guarded_delivery prog c sch s :
-  run (init c prog) sch = Some s -> exclusive (init c prog) sch = true ->
+Theorem guarded_delivery prog f c sch s :
+  run (init f c prog) sch = Some s -> exclusive (init f c prog) sch = true ->
   buf s = [] -> iters s = [] ->
   (forall i, from i (map snd (deq s)) ++ tag i (todo s i) = tag i (prog i)) /\
   (forall j, by_key j (delivered (seen s)) = by_key j (deq s)) /\
   entry_keys (seen s) = seq 0 (length (entry_keys (seen s))).
 Proof.
-  intros R G B P. pose proof (fifo_all_schedules _ _ _ _ R) as I.
-  destruct (exclusive_exactly_once _ _ _ _ R G) as (A & _ & _ & _ & K). repeat split.
+  intros R G B P. pose proof (fifo_all_schedules _ _ _ _ _ R) as I.
+  destruct (exclusive_exactly_once _ _ _ _ _ R G) as (A & _ & _ & _ & K). repeat split.
   - intros i. specialize (I i). rewrite B, app_nil_r in I. exact I.
   - intros j. specialize (A j). unfold held in A. rewrite P, iter_of_nil, app_nil_r in A. symmetry. exact A.
   - exact K.
@@ -517,21 +561,32 @@ Qed.
 
 (* when a range loop ends: the channel is closed, everything that was sent has been released, and the
    loop has been handed everything the channel released to it *)
-Theorem iteration_complete prog c sch s j s' :
-  run (init c prog) sch = Some s -> exclusive (init c prog) sch = true ->
+Theorem iteration_complete prog f c sch s j s' :
+  run (init f c prog) sch = Some s -> exclusive (init f c prog) sch = true ->
   step s (Next j) = Some (s', EvIterEnd j) ->
   closed s = true /\
   (forall i, from i (map snd (deq s)) ++ tag i (todo s i) = tag i (prog i)) /\
   by_key j (delivered (seen s)) = by_key j (deq s).
 Proof.
-  intros R G H. pose proof (fifo_all_schedules _ _ _ _ R) as I.
-  destruct (exclusive_exactly_once _ _ _ _ R G) as (A & _).
+  intros R G H. pose proof (fifo_all_schedules _ _ _ _ _ R) as I.
+  destruct (exclusive_exactly_once _ _ _ _ _ R G) as (A & _).
   assert (M : busy j s = false).
   { cbn in H. destruct (busy j s); [discriminate|reflexivity]. }
   destruct (iter_end_only_when _ _ _ H) as (C & B & _). repeat split.
   - exact C.
   - intros i. specialize (I i). rewrite B, app_nil_r in I. exact I.
   - specialize (A j). unfold held in A. apply busy_false in M. rewrite M, app_nil_r in A. symmetry. exact A.
+Qed.
+
+Theorem repaired_delivery prog c sch s :
+  run (init true c prog) sch = Some s -> buf s = [] ->
+  (forall i, from i (map snd (deq s)) ++ tag i (todo s i) = tag i (prog i)) /\
+  (forall j, by_key j (delivered (seen s)) = by_key j (deq s)) /\
+  entry_keys (seen s) = seq 0 (length (entry_keys (seen s))).
+Proof.
+  intros R B. apply (guarded_delivery prog true c sch s R); [|exact B|].
+  - apply fused_exclusive; reflexivity.
+  - eapply fused_run; [| |exact R]; reflexivity.
 Qed.
 
 (* ------------------------------------------------------------------ 6. refutation: two receivers range over one channel *)
@@ -541,11 +596,11 @@ Definition sch_bad : list act :=
   [Send 0; Send 0; Next 1; Next 2; Store 1; Count 1; Store 2; Count 2; Entry 1; Entry 2; Close 0; Next 1; Next 2].
 
 Lemma range_multi_witness :
-  exists s, run (init 2 prog2) sch_bad = Some s /\
+  exists s, run (init false 2 prog2) sch_bad = Some s /\
             buf s = [] /\ iters s = [] /\ (forall i, todo s i = []) /\
             map snd (deq s) = [(0, 10%N); (0, 11%N)] /\
             delivered (seen s) = [(1, (0, 11%N)); (2, (0, 11%N))] /\
-            multi_iter sch_bad = true /\ exclusive (init 2 prog2) sch_bad = false.
+            multi_iter sch_bad = true /\ exclusive (init false 2 prog2) sch_bad = false.
 Proof.
   eexists. split; [vm_compute; reflexivity|]. cbn [buf iters todo deq seen].
   repeat split; try reflexivity. intros i. unfold upd. destruct i; reflexivity.
@@ -694,12 +749,12 @@ Proof. reflexivity. Qed.
 
 (* n senders; everything sent, queue drained, no iteration in progress: the scripts were handed exactly
    the multiset of values of the senders' programs *)
-Theorem guarded_multiset prog c sch s n :
-  run (init c prog) sch = Some s -> exclusive (init c prog) sch = true ->
+Theorem guarded_multiset prog f c sch s n :
+  run (init f c prog) sch = Some s -> exclusive (init f c prog) sch = true ->
   buf s = [] -> iters s = [] -> (forall i, todo s i = []) -> (forall i, n <= i -> prog i = []) ->
   Permutation (payloads (map snd (delivered (seen s)))) (flat_map prog (seq 0 n)).
 Proof.
-  intros R G B P T Z. destruct (guarded_delivery _ _ _ _ R G B P) as (F & D & _).
+  intros R G B P T Z. destruct (guarded_delivery _ _ _ _ _ R G B P) as (F & D & _).
   assert (F' : forall i, from i (map snd (deq s)) = tag i (prog i)).
   { intros i. specialize (F i). rewrite T in F. unfold tag in F at 1. cbn in F. rewrite app_nil_r in F. exact F. }
   assert (Pd : Permutation (delivered (seen s)) (deq s)) by (apply keyed_perm; exact D).
